@@ -15,7 +15,7 @@
 import inspect
 from functools import lru_cache
 from pathlib import Path
-from typing import Any, Dict, List, Optional
+from typing import Any, Dict, List, Optional, Set
 
 import ezodf
 
@@ -61,6 +61,7 @@ def parse_ods(configuration: Configuration, asset: str, input_file_handle: Any) 
     artificial_transaction_list: List[AbstractTransaction] = []
 
     current_table_type: Optional[EntrySetType] = None
+    seen_table_types: Set[EntrySetType] = set()
     current_table_row_count: int = 0
     i: int = 0
     row: Any = None
@@ -101,9 +102,11 @@ def parse_ods(configuration: Configuration, asset: str, input_file_handle: Any) 
             # New table start
             current_table_row_count = 0
             current_table_type = _get_entry_set_type(cell0_value)
-            if current_table_type and not unfiltered_transaction_sets[current_table_type].is_empty():
-                # Found an already-processed table type
-                raise RP2ValueError(f"{asset}({i + 1}): Found more than one {cell0_value} symbol")
+            if current_table_type:
+                if current_table_type in seen_table_types:
+                    # Found an already-processed table type
+                    raise RP2ValueError(f"{asset}({i + 1}): Found more than one {cell0_value} symbol")
+                seen_table_types.add(current_table_type)
         elif _is_table_end(cell0_value):
             # Table end
             current_table_type = None
